@@ -32,7 +32,7 @@ checks["C04"] = (TV,
     "exactly-once, eager order for all steering values", trust_sh,
     "SSA symbolic execution + trace equivalence decided by z3 per path")
 checks["C11"] = (MC,
-    "bounded symbolic execution of lexer.Tokenize from SSA on fully symbolic byte strings (n<=2 quick, n<=3 thorough) and "
+    "bounded symbolic execution of lexer.Tokenize from SSA on fully symbolic byte strings (n<=3) and "
     "on lexeme templates with symbolic hole bytes; every path is compared, for all byte values on it, with an independent reference lexer",
     "trusted: reference lexer oracle/reflex.go, intrinsic models of regexp/strconv/strings, z3 4.8.12; conditions over <=3 "
     "independent byte variables are settled by exhaustive evaluation over their domains, all others by z3; outside the "
